@@ -140,6 +140,9 @@ func Claim(
 	txSize := claimTx.VirtualSize()
 	feeValue := uint64(float64(txSize) * milisatsPerByte)
 
+	if amount < 0 || feeValue > uint64(amount) {
+		return nil, errors.New("fee exceeds the pegged amount")
+	}
 	finalValue := uint64(amount) - feeValue
 	finalValueElements, err := elementsutil.ValueToBytes(finalValue)
 	if err != nil {
